@@ -840,6 +840,21 @@ def proj_msg(d):
             1 if any(k not in ("type", "sdp", "candidate", "id", "label") for k in d) else 0]
 
 
+def T(text):
+    """A text inside an output: one big int (keeps the outputs of 10^4..10^5 cases in memory small)."""
+    return int.from_bytes(b"\x01" + text.encode("utf8", "surrogatepass"), "big")
+
+
+def unT(n):
+    return n.to_bytes((n.bit_length() + 7) // 8, "big")[1:].decode("utf8", "surrogatepass")
+
+
+def digest(p):
+    """A projection that is only compared for equality: its SHA-256 as an int."""
+    import hashlib
+    return int(hashlib.sha256(json.dumps(canon(p)).encode()).hexdigest(), 16)
+
+
 def res(f):
     """Run f; [0, value] or [class of the exception]."""
     try:
@@ -853,7 +868,7 @@ class C09(Check):
     props_file = "Props/C09.v"
     models = ["Sdp"]
     quick_cases = 2600
-    thorough_cases = 80000
+    thorough_cases = 52000
     case_timeout = 5.0
     level_note = ("PARTIAL at character level: theorems are about Model/Sdp.v, which works on structured lines "
                   "(one constructor per SDP line kind, fields already tokenised). The lexer text->lines and the "
@@ -1019,17 +1034,17 @@ class C09(Check):
             return out
         try:
             s1 = str(d)
-            out[1] = [0, S(s1)]
+            out[1] = [0, T(s1)]
         except Exception as exc:
             out[1] = [classify_exc(exc)]
             return out
         try:
             d2 = SessionDescription.parse(s1)
-            out[2] = [0, proj_desc(d2)]
+            out[2] = [0, digest(proj_desc(d2))]
         except Exception as exc:
             out[2] = [classify_exc(exc)]
             return out
-        out[3] = res(lambda: S(str(d2)))
+        out[3] = res(lambda: T(str(d2)))
         return out
 
     def impl_run(self, case):
@@ -1043,7 +1058,7 @@ class C09(Check):
                 s = str(obj)
             except Exception as exc:
                 return [1, case[2], [classify_exc(exc)], []]
-            return [1, case[2], [0, S(s)], self.round_impl(s)]
+            return [1, case[2], [0, T(s)], self.round_impl(s)]
         if t == "c":
             try:
                 c = sdp.candidate_from_sdp(case[1])
@@ -1120,11 +1135,16 @@ class C09(Check):
     def canon_round(self, r):
         def text_of(x):
             if len(x) == 2 and x[0] == 0:
-                return [0, S(show(x[1]))]
+                return [0, T(show(x[1]))]
+            return x
+
+        def dig(x):
+            if len(x) == 2 and x[0] == 0:
+                return [0, digest(x[1])]
             return x
         if not r:
             return r
-        return [r[0], text_of(r[1]), r[2], text_of(r[3])]
+        return [r[0], text_of(r[1]), dig(r[2]), text_of(r[3])]
 
     def model_canon(self, case, out):
         t = case[0]
@@ -1134,7 +1154,7 @@ class C09(Check):
             wf = out[0] if case[2] != 2 else 2
             r = out[1]
             if r[0] == 0:
-                return [1, wf, [0, S(show(r[1]))], self.canon_round(out[2])]
+                return [1, wf, [0, T(show(r[1]))], self.canon_round(out[2])]
             return [1, wf, r, []]
         if t == "c":
             try:
@@ -1185,7 +1205,7 @@ class C09(Check):
                 return ("reparse-raises", "parse(str(parse(t))) raised")
             if r[3] != r[1]:
                 return ("not-idempotent", "str(parse(str(parse(t)))) != str(parse(t))")
-            if t == "t" and case[2] == 1 and U(r[1][1]) != case[1]:
+            if t == "t" and case[2] == 1 and unT(r[1][1]) != case[1]:
                 return ("generated-not-fixpoint", "str(parse(t)) != t for a description produced by RTCPeerConnection")
             return None
         if t == "c":
